@@ -262,10 +262,15 @@ CLAIMED = {
              "every such pair arises), `sensitize_spec` (None iff no sensitising valuation exists, otherwise the returned "
              "one sensitises), `sensitivity_transform_sem` (dif_out_s = flipping s flips n; sen_out bits = their number), "
              "`sensitivity_spec` (returned value = maximum over all valuations, for every cone size incl. powers of two), "
-             "`sensitivity_startpoint`. Partial: the endpoint-subset form of sensitization_transform and the exact-mode "
-             "influence / avg_sensitivity quotient are modelled and checked by correspondence and brute-force search, "
-             "their theorems are not yet proved.",
-        note=TRUST + " `Good`: lint-clean, blackbox-free, no `x` constants; `sensitivity_spec` additionally acyclic.",
+             "`sensitivity_startpoint`, `sensitization_endpoints_sem` + `sensitization_endpoints_complete` (selected "
+             "endpoints: the transform works on the cone of the endpoints, `sat` = some selected endpoint differs), "
+             "`influence_spec` (exact mode: one entry per startpoint, count = number of startpoint valuations under which "
+             "flipping it flips n, divisor 2^|startpoints|), `influence_ok` (never fails, under the name hypotheses its "
+             "three counterexample theorems show necessary), `avg_sensitivity_spec` (sum of the counts = sum over all "
+             "valuations of the size of the flip set). The results of all five analyses are additionally compared with the "
+             "models run on the proved DPLL solver. Not modelled: approx mode and the supergates mode of influence.",
+        note=TRUST + " `Good`: lint-clean, blackbox-free, no `x` constants; `sensitivity_spec` and `avg_sensitivity_spec` "
+             "additionally acyclic; float division/summation of the Python results is outside the model (counts are exact).",
         ref="§4 C11"),
     "C14": dict(
         technique="Lean 4 theorem (graph assembly of the fast parser = transformer of the full parser, up to the names of "
